@@ -3,14 +3,19 @@ package main
 import (
 	"crypto/sha256"
 	"encoding/hex"
+	"encoding/json"
 	"fmt"
 	"math/rand"
 	"os"
 	"path/filepath"
 	"sort"
 	"strings"
+	"sync"
+	"time"
 
 	"github.com/echovault/sugardb/sugardb"
+
+	"verif/harness/resp"
 )
 
 func init() {
@@ -80,6 +85,12 @@ func checkC11(ctx *Ctx) {
 		if ctx.Mine(i) {
 			ctx.SetCurrent(fmt.Sprintf("C11 rules across servers %d", i))
 			c11AcrossServers(ctx, i)
+		}
+	}
+	for i := 0; i < ctx.N(4, 16); i++ {
+		if ctx.Mine(i + 5) {
+			ctx.SetCurrent(fmt.Sprintf("C11 concurrent edits %d", i))
+			c11Concurrent(ctx, i)
 		}
 	}
 	for i := 0; i < ctx.N(16, 64); i++ {
@@ -733,4 +744,141 @@ func keysOfSet(m map[string]bool) []string {
 		out = append(out, k)
 	}
 	return out
+}
+
+// c11Concurrent: rule edits racing authentication and ACL SAVE.
+// (a) AUTH as a user against ACL DELUSER of that user, both sent at (nearly) the same moment, the user having
+//
+//	thousands of passwords so that checking them takes a while: once both are answered, the user is gone,
+//	so the connection must not be acting as it.
+//
+// (b) ACL SAVE while another caller adds password generation g first to user a-first and then to user z-last
+//
+//	(thousands of users between them): every saved file must hold a table that existed, i.e. z-last's
+//	passwords are a subset of a-first's.
+func c11Concurrent(ctx *Ctx, i int) {
+	root := mkScratch("c11c")
+	defer os.RemoveAll(root)
+	aclFile := filepath.Join(root, "acl.json")
+	port := freePort()
+	in, err := NewInst(InstOpts{Extra: append(withTCP(port), sugardb.WithAclConfig(aclFile), sugardb.WithRequirePass(true), sugardb.WithPassword("adminpw"))})
+	if err != nil {
+		ctx.Broken(err.Error())
+		return
+	}
+	defer in.Close()
+	if err := in.StartTCP(port); err != nil {
+		ctx.Inconclusive("listener did not come up")
+		return
+	}
+	if i%2 == 0 {
+		admin, err := Dial(port)
+		if err != nil {
+			return
+		}
+		defer admin.Close()
+		admin.Do("AUTH", "adminpw")
+		filler := []string{"ACL", "SETUSER", "ux", "on", "allCategories", "allCommands", "allKeys", "allChannels"}
+		for f := 0; f < 6000; f++ {
+			filler = append(filler, fmt.Sprintf(">filler-%05d", f))
+		}
+		filler = append(filler, ">pw")
+		for round := 0; round < 40; round++ {
+			if v, _, err := admin.Do(filler...); err != nil || v.IsError() {
+				ctx.Inconclusive("c11 concurrent: SETUSER refused")
+				return
+			}
+			c, err := Dial(port)
+			if err != nil {
+				return
+			}
+			var av resp.Value
+			var aerr error
+			done := make(chan struct{})
+			go func() {
+				av, _, aerr = c.Do("AUTH", "ux", "pw")
+				close(done)
+			}()
+			time.Sleep(time.Duration((round*37)%300) * time.Microsecond)
+			dv, _, derr := admin.Do("ACL", "DELUSER", "ux")
+			<-done
+			ctx.Eval(1)
+			if derr == nil && !dv.IsError() && aerr == nil && !av.IsError() {
+				// both answered: the user does not exist any more
+				w, _, werr := c.Do("ACL", "WHOAMI")
+				ctx.Class("concurrent|auth-vs-deluser|auth-ok")
+				if t, _ := w.Text(); werr == nil && !w.IsError() && t == "ux" {
+					g, _, _ := c.Do("SET", "c11c", "v")
+					ctx.Violate(Violation{Kind: "deleted_user_acts", Lane: "concurrent-auth-deluser",
+						What: fmt.Sprintf("AUTH ux pw and ACL DELUSER ux were sent at nearly the same moment (round %d) and both answered OK; afterwards ACL WHOAMI on that connection replies %q and SET replies %s: the deleted user keeps acting", round, t, trunc(g.String(), 40)),
+						Case: map[string]interface{}{"round": round}, Key: "c11|concurrent|auth-deluser"})
+					c.Close()
+					return
+				}
+			} else {
+				ctx.Class("concurrent|auth-vs-deluser|auth-refused")
+			}
+			c.Close()
+		}
+		return
+	}
+	// (b)
+	in.Do("ACL", "SETUSER", "a-first", "on", ">g0")
+	for u := 0; u < 2500; u++ {
+		in.Do("ACL", "SETUSER", fmt.Sprintf("m%04d", u), "on", ">p")
+	}
+	in.Do("ACL", "SETUSER", "z-last", "on", ">g0")
+	stop := make(chan struct{})
+	var wg sync.WaitGroup
+	wg.Add(1)
+	go func() {
+		defer wg.Done()
+		for g := 1; ; g++ {
+			select {
+			case <-stop:
+				return
+			default:
+			}
+			pw := fmt.Sprintf(">g%d", g)
+			in.Do("ACL", "SETUSER", "a-first", pw)
+			in.Do("ACL", "SETUSER", "z-last", pw)
+		}
+	}()
+	defer func() { close(stop); wg.Wait() }()
+	for k := 0; k < 12; k++ {
+		if v, _, crash := in.Do("ACL", "SAVE"); crash != "" || v.IsError() {
+			ctx.Inconclusive("c11 concurrent: ACL SAVE refused")
+			return
+		}
+		b, err := os.ReadFile(aclFile)
+		if err != nil {
+			continue
+		}
+		var users []struct {
+			Username  string
+			Passwords []struct{ PasswordValue string }
+		}
+		if json.Unmarshal(b, &users) != nil {
+			continue
+		}
+		pw := map[string]map[string]bool{}
+		for _, u := range users {
+			if u.Username == "a-first" || u.Username == "z-last" {
+				pw[u.Username] = map[string]bool{}
+				for _, p := range u.Passwords {
+					pw[u.Username][p.PasswordValue] = true
+				}
+			}
+		}
+		ctx.Eval(1)
+		ctx.Class("concurrent|save-vs-setuser")
+		for p := range pw["z-last"] {
+			if !pw["a-first"][p] {
+				ctx.Violate(Violation{Kind: "saved_table_never_existed", Lane: "concurrent-save-setuser",
+					What: fmt.Sprintf("while another caller added each new password first to a-first and then to z-last, ACL SAVE number %d wrote a file in which z-last has password %q and a-first does not: no user table that ever existed", k+1, p),
+					Case: map[string]interface{}{"save": k + 1}, Key: "c11|concurrent|save-setuser"})
+				return
+			}
+		}
+	}
 }
